@@ -2,7 +2,7 @@
    Only statements here; every proof is `exact <lemma>` into Proofs/. *)
 From Verif Require Import Base.Prelude Base.StrUtil Base.Index Base.NdArr Model.MapSpec Model.MapRun Model.MapDenote
   Model.SymBody Model.RunInfoCodec Model.FSStore Corr.Run_C04 Corr.Valid_C04
-  Proofs.RunInfoFacts Proofs.FSStoreFacts Proofs.ReloadFacts Proofs.ConsistentFacts Proofs.C04Witness.
+  Proofs.RunInfoFacts Proofs.FSStoreFacts Proofs.ReloadFacts Proofs.ConsistentFacts Proofs.FinishFacts Proofs.C04Witness.
 
 (* ---------------------------------------------------------------------------------------------------------- *)
 (* 1. RunInfo.load (RunInfo.dump ri) = ri : shapes, masks (keyed by a name or a tuple of names), internal shapes
@@ -63,6 +63,16 @@ Theorem C04_reload_eq_results : forall c f live fn o,
     /\ load_outputs version_name w o = Ok (Some (PVal stored), w).
 Proof. exact reload_eq_results_full. Qed.
 Print Assumptions C04_reload_eq_results.
+
+(* the hypothesis `finish false c = Ok f` is not vacuous and not restrictive: for a valid request whose denotation is
+   defined (C01: then the run itself succeeds) and whose storage configuration names a backend for every mapped output,
+   recording the RunInfo, writing the element / single-output files and persisting never fail *)
+Theorem C04_finish_succeeds : forall c d,
+  valid_request c = true -> storage_complete c = true ->
+  denote_run sym_body (c_funcs c) (c_inputs c) (c_internal c) = Ok d ->
+  exists f, finish false c = Ok f.
+Proof. exact finish_succeeds. Qed.
+Print Assumptions C04_finish_succeeds.
 
 (* ... and, with C01's map_run_denotes, what reloads is the denotation of the request (Model/MapDenote.v) *)
 Theorem C04_reload_eq_denotation : forall c f d live fn o,
